@@ -382,6 +382,16 @@ type oracle struct {
 func newOracle(w *vc.World) *oracle { return &oracle{w: w, committed: map[uint64]string{}} }
 
 // chainVS: the validator set id the chain prescribes for height h given what has been committed.
+// viewVSID names the validator set a view carries (by its hashes); "" if it is none of the world's sets.
+func (o *oracle) viewVSID(v *tmconsensus.VersionedRoundView) string {
+	for id, x := range o.w.Valsets {
+		if bytes.Equal(x.PubKeyHash, v.ValidatorSet.PubKeyHash) && bytes.Equal(x.VotePowerHash, v.ValidatorSet.VotePowerHash) {
+			return id
+		}
+	}
+	return ""
+}
+
 func (o *oracle) chainVS(h uint64) string {
 	if h <= 1 {
 		return o.w.Def.Genesis
@@ -770,7 +780,13 @@ func (o *oracle) evaluate(r *rig, k *tmi.VerifKState, prev *tmi.VerifKState, sit
 							hp[pos] = struct{}{}
 						}
 					}
-					for _, pos := range vc.SparsePositions(sigs, 0) {
+					for _, sg := range sigs {
+						// only votes of this round's validators are owed: a signature stored for the round under another
+						// key set (accepted while the height was still in the future) is not one
+						pos, authentic := o.authentic(kind, e.v.Height, e.v.Round, hash, o.viewVSID(e.v), sg)
+						if !authentic {
+							continue
+						}
 						if _, ok := hp[pos]; !ok {
 							*out = append(*out, viol{"C10", "PersistedVotesReloaded", site, e.n + ":" + kind,
 								fmt.Sprintf("%s of validator %d for %s persisted for %d/%d is missing from the %s view after restart", kind, pos, w.Label(hash), e.v.Height, e.v.Round, e.n)})
@@ -1638,8 +1654,10 @@ func (rn *runner) runBehaviour(b behaviour) {
 			r.stop()
 			stores = stores.rebuild(w.HashScheme, pointsBefore+st.CrashAt)
 			keepCommitted := o.committed
+			keepEarly := o.filedEarly
 			r = newRig(w, stores)
 			o = newOracle(w)
+			o.filedEarly = keepEarly
 			// durable position at the moment of the crash
 			if vh, vr, chh, cr, err := stores.cur.ms.NetworkHeightRound(context.Background()); err == nil {
 				o.lastNHR, o.haveNHR = [4]uint64{vh, uint64(vr), chh, uint64(cr)}, true
